@@ -59,6 +59,7 @@ class Baton:
                     self.literal[(ent[1], ent[2])] = ent[3]
                 elif kind == "f":
                     self.literal[("f", ent[1])] = ent[2]
+        self.next_obj = [None] * n               # per client: object (handle) of the operation it will start next
         self.cur_op = [None] * n                 # per client: id of the op in flight
         self.local_e = [0] * n                   # per client: pre-emption points seen inside it
         # instrumentation for reach probes
@@ -135,8 +136,8 @@ class Baton:
                 # pre-empt often while another client has an operation in flight on the same object
                 mine = self.op_in_flight[cid]
                 hot = mine is not None and mine[1] is not None and any(
-                    o is not None and o[1] == mine[1]
-                    for c, o in enumerate(self.op_in_flight) if c != cid)
+                    (o is not None and o[1] == mine[1]) or self.next_obj[c] == mine[1]
+                    for c, o in enumerate(self.op_in_flight) if c != cid and not self.done[c])
                 pr = self.p_op if is_op else ((self.p if weight > 1.0 else self.p / 4) if hot else 0.004)
                 fire = self.rng.random() < pr
             elif pol == "atomic":
@@ -157,7 +158,16 @@ class Baton:
                         if n == self.atom_k:
                             others = self._runnable(exclude=cid)
                             if others:
-                                to = self.rng.choice(others)
+                                # prefer a visitor whose operation (in flight, or next to start) is on the SAME
+                                # object as the victim's: that is where an atomicity violation can show
+                                mine = self.op_in_flight[cid]
+                                same = [c for c in others
+                                        if mine is not None and mine[1] is not None and
+                                        ((self.op_in_flight[c] is not None and self.op_in_flight[c][1] == mine[1]) or
+                                         self.next_obj[c] == mine[1])]
+                                to = self.rng.choice(same) if same and self.rng.random() < 0.8 else self.rng.choice(others)
+                                if same:
+                                    self._probe("atomicity_tests_same_object")
                                 self.return_to = (cid,)
                                 self._probe("atomicity_tests")
             elif pol == "sparse":
